@@ -66,12 +66,13 @@ def judge(chk, c):
     files = {'schema.exp': c.lib.schema.text(), 'in.p21': text}
     res = {}
     msgs = {}
+    states = {}
     with p21fam.Scratch('c15') as sc:
         inp = sc.write('in.p21', text)
         for mode in ('lenient', 'strict'):
             strict = mode == 'strict'
             r = p21fam.p21read(c.lib, inp, sc.path('out_%s.p21' % mode), strict=strict)
-            rm = p21fam.mon(c.lib, (['strict'] if strict else []) + ['read', inp], sc.d)
+            rm = p21fam.mon(c.lib, (['strict'] if strict else []) + ['read', inp, 'dump', sc.path('d_%s.txt' % mode)], sc.d)
             chk.ev()
             if r.crashed() or rm.crashed():
                 bad = r if r.crashed() else rm
@@ -81,6 +82,8 @@ def judge(chk, c):
             sev = ops[0][1].get('sev') if ops else None
             res[mode] = (r.rc, sev, sc.read('out_%s.p21' % mode))
             msgs[mode] = (r.out + '\n' + r.err + '\n' + '\n'.join(p21fam.mon_msgs(rm.out)))
+            _n, _h, dumped = p21fam.parse_dump(sc.read('d_%s.txt' % mode))
+            states[mode] = dict((iid, st) for (iid, st, name, idx, sfid, txt) in dumped)
     for mode, (rc, sev, out) in res.items():
         if c.where == 'complex part' and not c.optional:
             # open finding (same root cause as C03's): parts of a complex instance are always read strictly and their severity is dropped,
@@ -97,6 +100,15 @@ def judge(chk, c):
             continue
         lenient_ok = (mode == 'lenient' and c.kind in LENIENT_KINDS)
         if not lenient_ok:
+            # "reports the instance as incomplete": the instance itself is marked incomplete (its editing state), and the report
+            # names it - not only the file-level result
+            st = states.get(mode, {}).get(c.k)
+            if st is not None and st != 'I':
+                found.append(('instance state|%s|%s' % (c.shape(), mode),
+                              'instance #%d with a missing required %s is in state %s after the read, not incomplete' % (c.k, c.kind, st), files))
+            elif st is not None and ('incomplete instance #%d' % c.k) not in msgs.get(mode, ''):
+                found.append(('instance report|%s|%s' % (c.shape(), mode),
+                              'no message reports instance #%d as incomplete' % c.k, dict(files, messages=msgs.get(mode, '')[-3000:])))
             if rc == 0 or sev is None or sev > SEV_INCOMPLETE:
                 found.append(('required accepted|%s|%s' % (c.shape(), mode),
                               'missing required %s must make the read fail as incomplete in %s mode: exit %s, severity %s' % (c.kind, mode, rc, sev), files))
